@@ -56,7 +56,9 @@ type State struct {
 	heap    map[int]Value
 	allocLog []int
 	sig      string
-	curKey   string
+	curKey   string // canonical allocation context of the current instruction, built lazily by key()
+	keyAct, keyVisit int
+	keyInstr ssa.Instruction
 	subAlloc int
 	frames  []*Frame
 	pc      []*Term
@@ -80,7 +82,7 @@ type obsEntry struct {
 }
 
 func (s *State) clone() *State {
-	n := &State{eng: s.eng, dead: s.dead, why: s.why, lastRet: s.lastRet, curKey: s.curKey, subAlloc: s.subAlloc, goCount: s.goCount}
+	n := &State{eng: s.eng, dead: s.dead, why: s.why, lastRet: s.lastRet, curKey: s.curKey, subAlloc: s.subAlloc, goCount: s.goCount, keyAct: s.keyAct, keyVisit: s.keyVisit, keyInstr: s.keyInstr}
 	n.allocLog = append([]int(nil), s.allocLog...)
 	n.heap = make(map[int]Value, len(s.heap))
 	for k, v := range s.heap {
@@ -108,11 +110,21 @@ func (s *State) clone() *State {
 
 func (s *State) top() *Frame { return s.frames[len(s.frames)-1] }
 
+// key names the current instruction instance (activation, instruction, visit count); formatting it on every step
+// was a measurable cost, so it is only built when an allocation or a call needs it.
+func (s *State) key() string {
+	if s.curKey == "" {
+		s.curKey = fmt.Sprintf("%d|%p|%d", s.keyAct, s.keyInstr, s.keyVisit)
+	}
+	return s.curKey
+}
+
 func (e *Engine) canonID(key string) int {
 	if id, ok := e.allocNames[key]; ok {
 		return id
 	}
-	id := len(e.allocNames) + 1
+	e.allocSeq++ // monotonic, so that the name table may be dropped (long single-path runs) without reusing ids
+	id := e.allocSeq
 	e.allocNames[key] = id
 	return id
 }
@@ -122,10 +134,11 @@ func (e *Engine) canonID(key string) int {
 func (s *State) alloc(v Value) int {
 	s.subAlloc++
 	e := s.eng
-	id := e.canonID(fmt.Sprintf("obj|%s|%d", s.curKey, s.subAlloc))
+	id := e.canonID(fmt.Sprintf("obj|%s|%d", s.key(), s.subAlloc))
 	if _, exists := s.heap[id]; exists {
 		// same site reached twice on one path without a distinguishing visit count: fall back to a unique name
-		id = e.canonID(fmt.Sprintf("obj|%s|%d|dup%d", s.curKey, s.subAlloc, len(s.allocLog)))
+		e.dupSeq++
+		id = e.canonID(fmt.Sprintf("obj|%s|%d|dup%d", s.key(), s.subAlloc, e.dupSeq))
 	}
 	s.heap[id] = v
 	s.allocLog = append(s.allocLog, id)
@@ -170,6 +183,7 @@ type Engine struct {
 	MergeFails int
 	Instrs     int
 	FnSeen     map[string]int
+	fnSeenPtr  map[*ssa.Function]int
 	Stubs      map[string]int
 	AssertQ    int
 	intr       map[string]intrinsic
@@ -185,6 +199,8 @@ type Engine struct {
 	ufSeq       int
 	cuts        map[string]*ssa.Function
 	allocNames  map[string]int
+	allocSeq    int
+	dupSeq      int
 	rpoCache    map[*ssa.Function]map[*ssa.BasicBlock]int
 	joinFailWhy map[string]int
 	Params      map[string]int64
@@ -215,7 +231,7 @@ var extraExecutable = map[string]bool{}
 type intrinsic func(e *Engine, st *State, call *ssa.CallCommon, args []Value) Value
 
 func NewEngine(l *Loaded, s *Solver) *Engine {
-	e := &Engine{L: l, S: s, Unwind: 12, globals: map[*ssa.Global]int{}, nondet: map[string]*Term{}, Reached: map[string]bool{}, FnSeen: map[string]int{}, Stubs: map[string]int{}, MaxPaths: 200000,
+	e := &Engine{L: l, S: s, Unwind: 12, globals: map[*ssa.Global]int{}, nondet: map[string]*Term{}, Reached: map[string]bool{}, FnSeen: map[string]int{}, fnSeenPtr: map[*ssa.Function]int{}, Stubs: map[string]int{}, MaxPaths: 200000,
 		allocNames: map[string]int{}, rpoCache: map[*ssa.Function]map[*ssa.BasicBlock]int{}, joinFailWhy: map[string]int{}, Params: map[string]int64{}, KnownOpen: map[string]bool{}, MapOrders: "insertion", ufApps: map[string]*Term{}}
 	e.intr = map[string]intrinsic{}
 	registerIntrinsics(e)
@@ -463,6 +479,22 @@ func (e *Engine) stepSafe(st *State) (forks []*State) {
 				forks = nil
 				return
 			}
+			if os.Getenv("VERIF_TRACE") != "" && len(st.frames) > 0 {
+				// engine bug or unsupported shape of values: say where the interpreted program was
+				fr := st.top()
+				if fr.ip < len(fr.block.Instrs) {
+					in := fr.block.Instrs[fr.ip]
+					fmt.Fprintf(os.Stderr, "engine panic while executing %s block %d: %s  at %s\n", fr.fn, fr.block.Index, in, e.L.Prog.Fset.Position(in.Pos()))
+					if os.Getenv("VERIF_TRACE") == "2" {
+						for v, x := range fr.regs {
+							fmt.Fprintf(os.Stderr, "   reg %s = %T %+v\n", v.Name(), x, x)
+							if p, ok := x.(PtrVal); ok && p.Obj != 0 {
+								fmt.Fprintf(os.Stderr, "       -> %+v\n", st.heap[p.Obj])
+							}
+						}
+					}
+				}
+			}
 			panic(r)
 		}
 	}()
@@ -519,12 +551,17 @@ func (e *Engine) constValue(c *ssa.Const) Value {
 	return nil
 }
 
+// globalBase: object ids of package-level variables start here; allocated objects are numbered from 1 by canonID.
+// (It used to be 1e6, which a path that allocates more than a million objects - a harness looping over 10^5 query
+// shapes - silently ran into: allocated objects then aliased globals.)
+const globalBase = 1 << 40
+
 // globals live at negative-free ids in every state's heap; they are created lazily and shared via gheap
 func (e *Engine) globalObj(st *State, g *ssa.Global) int {
 	if id, ok := e.globals[g]; ok {
 		return id
 	}
-	id := 1000000 + len(e.globals)
+	id := globalBase + len(e.globals)
 	e.globals[g] = id
 	if e.globalByID == nil {
 		e.globalByID = map[int]*ssa.Global{}
@@ -660,7 +697,7 @@ func (e *Engine) step(st *State) (forks []*State) {
 	}
 	instr := fr.block.Instrs[fr.ip]
 	st.sig = ""
-	st.curKey = fmt.Sprintf("%d|%p|%d", fr.act, instr, fr.visits[fr.block.Index])
+	st.keyAct, st.keyInstr, st.keyVisit, st.curKey = fr.act, instr, fr.visits[fr.block.Index], ""
 	st.subAlloc = 0
 	e.Instrs++
 	if e.Instrs%2000 == 0 && !e.Deadline.IsZero() && time.Now().After(e.Deadline) {
@@ -669,7 +706,7 @@ func (e *Engine) step(st *State) (forks []*State) {
 	if e.Instrs%100000 == 0 && os.Getenv("VERIF_PROGRESS") != "" {
 		fmt.Fprintf(os.Stderr, "progress: %d instrs, in %s block %d, depth %d, queries %d, joinmerges %d fails %d\n", e.Instrs, fr.fn.Name(), fr.block.Index, len(st.frames), e.S.Queries, e.JoinMerges, e.JoinMergeFails)
 	}
-	e.FnSeen[fr.fn.String()]++
+	e.fnSeenPtr[fr.fn]++ // folded into FnSeen (by name) when the job ends: fn.String() per step was a measurable cost
 	advance := true
 	switch in := instr.(type) {
 	case *ssa.DebugRef:
